@@ -172,6 +172,9 @@ Qed.
 
 Definition temporal_ft (ft : ftype) : Prop := is_temporal ft = true.
 
+(** what the pruner makes of an instant [z] (clamped at 0 in the pinned tree) *)
+Definition pruner_view (z : Z) : Z := if tsite_pruner_clamps then Z.max z 0 else z.
+
 Theorem sites_agree : forall (s : bytes) (ft : ftype),
   temporal_ft ft ->
   match parse_str_to_epoch_seconds s with
@@ -180,15 +183,16 @@ Theorem sites_agree : forall (s : bytes) (ft : ftype),
       /\ site_where (TStr s) = CNum z
       /\ site_since_row s = SinceNum z
       /\ site_filter ft (TStr s) = SInt z
-      /\ pruner_ts (site_since_filter s) = Z.max z 0
-      /\ pruner_ts (site_filter ft (TStr s)) = Z.max z 0
+      /\ pruner_ts (site_since_filter s) = pruner_view z
+      /\ pruner_ts (site_filter ft (TStr s)) = pruner_view z
       /\ parse_since_epoch s = Some (Z.max z 0)
   | None =>
       site_payload ft (Some (TStr s)) = PErr
       /\ site_where (TStr s) = CStr
       /\ site_since_row s = SinceIgnored
       /\ site_filter ft (TStr s) = SUtf8 s
-      /\ (pruner_ts (SUtf8 s) = 0 \/ wrap_i64 (pruner_ts (SUtf8 s)) < 0)
+      /\ (pruner_ts (SUtf8 s) = tsite_pruner_unparsable
+          \/ (tsite_pruner_u64_fallback = true /\ wrap_i64 (pruner_ts (SUtf8 s)) < 0))
   end.
 Proof.
   intros s ft Hft. unfold temporal_ft in Hft.
@@ -199,7 +203,7 @@ Proof.
     + unfold site_where. cbn [scalar_of]. rewrite E. reflexivity.
     + unfold site_since_row. rewrite E. reflexivity.
     + unfold site_filter. rewrite Hft. cbn [scalar_of]. rewrite E. reflexivity.
-    + unfold site_since_filter, pruner_ts. rewrite E. reflexivity.
+    + unfold site_since_filter, pruner_ts, pruner_ts_gen, pruner_view. rewrite E. reflexivity.
     + unfold site_filter. rewrite Hft. cbn [scalar_of]. rewrite E. reflexivity.
     + unfold parse_since_epoch. rewrite E. reflexivity.
   - assert (I64 : parse_i64_str s = None).
@@ -211,9 +215,10 @@ Proof.
     + unfold site_where. cbn [scalar_of scalar_as_i64]. rewrite E, I64. reflexivity.
     + unfold site_since_row. rewrite E, I64. reflexivity.
     + unfold site_filter. rewrite Hft. cbn [scalar_of]. rewrite E. reflexivity.
-    + unfold pruner_ts. rewrite E.
+    + unfold pruner_ts, pruner_ts_gen. rewrite E.
+      destruct tsite_pruner_u64_fallback; [|left; reflexivity].
       destruct (parse_u64_str s) as [u|] eqn:U; [right|left; reflexivity].
-      exact (proj2 (u64_fallback_wraps_negative s u E U)).
+      split; [reflexivity | exact (proj2 (u64_fallback_wraps_negative s u E U))].
 Qed.
 
 (** When the literal denotes an instant at or after the epoch, every site yields exactly it. *)
@@ -229,7 +234,9 @@ Corollary sites_agree_nonneg : forall s ft z,
 Proof.
   intros s ft z Hft E Hz. pose proof (sites_agree s ft Hft) as H. rewrite E in H.
   destruct H as [A [B [C [D [F [G I]]]]]].
-  unfold site_since_filter in F. rewrite D in G. rewrite Z.max_l in F, G, I by lia.
+  unfold site_since_filter in F. rewrite D in G.
+  assert (V : pruner_view z = z) by (unfold pruner_view; destruct tsite_pruner_clamps; lia).
+  rewrite V in F, G. rewrite Z.max_l in I by lia.
   repeat split; assumption.
 Qed.
 
@@ -237,7 +244,7 @@ Qed.
 Lemma prune_literal_same : forall f op s z zones,
   parse_str_to_epoch_seconds s = Some z ->
   prune f op (SUtf8 s) zones = prune f op (SInt z) zones.
-Proof. intros f op s z zones E. unfold prune, pruner_ts. rewrite E. reflexivity. Qed.
+Proof. intros f op s z zones E. unfold prune, prune_gen, pruner_ts_gen. rewrite E. reflexivity. Qed.
 
 (** * The pruner keeps every zone that holds a match (outside the known classes) *)
 
@@ -291,57 +298,87 @@ Lemma in_nonempty_filter : forall (f : zone -> bool) zones other z,
   In z (match filter f zones with [] => other | hz => hz end).
 Proof. intros f zones other z H. destruct (filter f zones); [destruct H | exact H]. Qed.
 
-Theorem prune_sound_in_range : forall flag op v zones z t,
-  0 <= v < u32_mod ->
-  In z zones -> 0 <= zmin z -> zmax z < u32_mod ->
-  In t (z_ts z) -> cmp_holds op t v ->
-  exists ids, prune flag op (SInt v) zones = Some ids /\ In (z_id z) ids.
+Lemma bucket_small : forall x g,
+  0 <= x < 2 ^ 32 -> 0 < g -> ((x / g) * g) mod 2 ^ 32 = (x / g) * g.
 Proof.
-  intros flag op v zones z t Hv Hz Hlo Hhi Ht Hc.
+  intros x g Hx Hg. apply Z.mod_small.
+  pose proof (Z.mul_div_le x g Hg). pose proof (Z.div_pos x g ltac:(lia) Hg). nia.
+Qed.
+
+Lemma bucket_mono : forall a b g, 0 < g -> a <= b -> a / g * g <= b / g * g.
+Proof. intros a b g Hg Hab. pose proof (Z.div_le_mono a b g Hg Hab). nia. Qed.
+
+Lemma div_between : forall a b c g, 0 < g -> a <= b -> b <= c -> a / g <= b / g <= c / g.
+Proof.
+  intros a b c g Hg H1 H2. split; apply Z.div_le_mono; assumption.
+Qed.
+
+(** Generic in the shapes that the proposed repair changes: [guard] (only zones without
+    pre-epoch stamps enter the calendar) and [clamps] (the pruner clamps the literal). *)
+Theorem prune_gen_sound : forall guard clamps fb dflt flag op v zones z t,
+  - 2 ^ 63 <= v < u32_mod ->
+  (clamps = true -> 0 <= v) ->
+  (guard = true -> 0 <= zmin z) ->
+  In z zones -> zmax z < u32_mod ->
+  In t (z_ts z) -> cmp_holds op t v ->
+  exists ids, prune_gen guard clamps fb dflt flag op (SInt v) zones = Some ids /\ In (z_id z) ids.
+Proof.
+  intros guard clamps fb dflt flag op v zones z t Hv Hcl Hgd Hz Hhi Ht Hc.
   pose proof (zone_bounds z t Ht) as Hb.
-  unfold u32_mod in *.
-  assert (Hcal : in_cal z = true) by (unfold in_cal; lia).
-  assert (Hex : existsb in_cal zones = true) by (apply existsb_exists; exists z; split; assumption).
-  assert (Ets : wrap_i64 (pruner_ts (SInt v)) = v).
-  { cbn [pruner_ts]. rewrite Z.max_l by lia. unfold wrap_i64.
-    destruct (Z.ltb_spec v (2 ^ 63)); lia. }
-  assert (Hneg : (v <? 0) = false) by lia.
-  assert (Small : forall x, 0 <= x < 2 ^ 32 -> forall g, 0 < g -> ((x / g) * g) mod 2 ^ 32 = (x / g) * g).
-  { intros x Hx g Hg. apply Z.mod_small.
-    pose proof (Z.mul_div_le x g Hg). pose proof (Z.div_pos x g ltac:(lia) Hg). nia. }
-  assert (Mono : forall a b g, 0 < g -> a <= b -> a / g * g <= b / g * g).
-  { intros a b g Hg Hab. pose proof (Z.div_le_mono a b g Hg Hab). nia. }
-  (* the day bucket of the zone's last / first stamp is one of its buckets *)
-  assert (DayHi : In (zmax z / 86400 * 86400) (zone_buckets 86400 z)).
-  { unfold zone_buckets. rewrite Hcal.
-    rewrite <- (Small (zmax z) ltac:(lia) 86400 ltac:(lia)). unfold u32_mod.
-    apply (buckets_in 86400 (zmin z) (zmax z) (zmax z / 86400)); [lia|].
-    pose proof (Z.div_le_mono (zmin z) (zmax z) 86400 ltac:(lia) ltac:(lia)). lia. }
-  assert (DayLo : In (zmin z / 86400 * 86400) (zone_buckets 86400 z)).
-  { unfold zone_buckets. rewrite Hcal.
-    rewrite <- (Small (zmin z) ltac:(lia) 86400 ltac:(lia)). unfold u32_mod.
-    apply (buckets_in 86400 (zmin z) (zmax z) (zmin z / 86400)); [lia|].
-    pose proof (Z.div_le_mono (zmin z) (zmax z) 86400 ltac:(lia) ltac:(lia)). lia. }
-  assert (Bv : forall g, 0 < g -> bucket_id g v = v / g * g).
-  { intros g Hg. unfold bucket_id, u32_mod. apply Small; lia. }
-  assert (Ge : v <= zmax z -> In z (cal_zones_ge v zones)).
-  { intros Hle. unfold cal_zones_ge. apply filter_In. split; [exact Hz|].
-    apply existsb_exists. exists (zmax z / 86400 * 86400). split; [exact DayHi|].
-    rewrite Bv by lia. pose proof (Mono v (zmax z) 86400 ltac:(lia) Hle). lia. }
-  assert (Le : zmin z <= v -> In z (cal_zones_le v zones)).
-  { intros Hle. unfold cal_zones_le. apply filter_In. split; [exact Hz|].
-    apply existsb_exists. exists (zmin z / 86400 * 86400). split; [exact DayLo|].
-    rewrite Bv by lia. pose proof (Mono (zmin z) v 86400 ltac:(lia) Hle). lia. }
-  unfold prune. cbv zeta. rewrite Ets, Hex, Hneg. cbn [negb].
+  unfold u32_mod, tsite_bucket_mod in *.
+  remember (Z.max 0 (zmin z)) as lo eqn:Elo.
+  remember (Z.max 0 (zmax z)) as hi eqn:Ehi.
+  remember (Z.max v 0) as vc eqn:Evc0.
+  assert (Hcal : in_cal_gen guard z = true).
+  { unfold in_cal_gen. destruct guard; [specialize (Hgd eq_refl); clear - Hgd Hb; lia | reflexivity]. }
+  assert (Hex : existsb (in_cal_gen guard) zones = true)
+    by (apply existsb_exists; exists z; split; assumption).
+  assert (Ets : wrap_i64 (pruner_ts_gen clamps fb dflt (SInt v)) = v).
+  { cbn [pruner_ts_gen]. unfold wrap_i64.
+    destruct clamps; [specialize (Hcl eq_refl); rewrite Z.max_l by (clear - Hcl; lia)|];
+      destruct (Z.ltb_spec v (2 ^ 63)); clear - Hv H; lia. }
+  assert (Evc : (if clamps then v else Z.max v 0) = vc).
+  { destruct clamps; [specialize (Hcl eq_refl); clear - Hcl Evc0; lia | symmetry; exact Evc0]. }
+  assert (Hvc : 0 <= vc < 2 ^ 32) by (clear - Evc0 Hv; lia).
+  assert (Hlo : 0 <= lo < 2 ^ 32) by (clear - Elo Hhi Hb; lia).
+  assert (Hhi' : 0 <= hi < 2 ^ 32) by (clear - Ehi Hhi; lia).
+  assert (Hlh : lo <= hi) by (clear - Elo Ehi Hb; lia).
+  assert (Hneg : (vc <? 0) = false) by (clear - Hvc; lia).
+  assert (P86400 : 0 < 86400) by reflexivity.
+  assert (P3600 : 0 < 3600) by reflexivity.
+  assert (Bk : forall g k, 0 < g -> lo / g <= k <= hi / g ->
+               In ((k * g) mod 2 ^ 32) (zone_buckets_gen guard g z)).
+  { intros g k Hg Hk. unfold zone_buckets_gen. rewrite Hcal, <- Elo, <- Ehi.
+    apply (buckets_in g lo hi k Hg Hk). }
+  assert (DayHi : In (hi / 86400 * 86400) (zone_buckets_gen guard 86400 z)).
+  { rewrite <- (bucket_small hi 86400 Hhi' P86400). apply Bk; [exact P86400|].
+    split; [apply Z.div_le_mono; assumption | apply Z.le_refl]. }
+  assert (DayLo : In (lo / 86400 * 86400) (zone_buckets_gen guard 86400 z)).
+  { rewrite <- (bucket_small lo 86400 Hlo P86400). apply Bk; [exact P86400|].
+    split; [apply Z.le_refl | apply Z.div_le_mono; assumption]. }
+  assert (Bv : forall g, 0 < g -> bucket_id g vc = vc / g * g).
+  { intros g Hg. unfold bucket_id, u32_mod, tsite_bucket_mod. apply bucket_small; assumption. }
+  assert (Ge : v <= zmax z -> In z (cal_zones_ge_gen guard vc zones)).
+  { intros Hle. unfold cal_zones_ge_gen, tsite_bucket_day. apply filter_In. split; [exact Hz|].
+    apply existsb_exists. exists (hi / 86400 * 86400). split; [exact DayHi|].
+    rewrite Bv by exact P86400.
+    assert (Hvh : vc <= hi) by (clear - Evc0 Ehi Hle; lia).
+    pose proof (bucket_mono vc hi 86400 P86400 Hvh) as M. clear - M. lia. }
+  assert (Le : zmin z <= v -> In z (cal_zones_le_gen guard vc zones)).
+  { intros Hle. unfold cal_zones_le_gen, tsite_bucket_day. apply filter_In. split; [exact Hz|].
+    apply existsb_exists. exists (lo / 86400 * 86400). split; [exact DayLo|].
+    rewrite Bv by exact P86400.
+    assert (Hlv : lo <= vc) by (clear - Evc0 Elo Hle; lia).
+    pose proof (bucket_mono lo vc 86400 P86400 Hlv) as M. clear - M. lia. }
+  unfold prune_gen. cbv zeta. rewrite Ets, Evc, Hex, Hneg. cbn [negb].
   destruct op; cbn [cmp_holds] in Hc; try contradiction;
     (eexists; split; [reflexivity|]; apply in_map; apply filter_In; split).
   - (* Eq: calendar *)
-    subst t. unfold cal_zones_eq. apply in_nonempty_filter. apply filter_In. split; [exact Hz|].
-    unfold has_bucket. apply existsb_exists. exists (bucket_id 3600 v). split; [|apply Z.eqb_refl].
-    unfold zone_buckets. rewrite Hcal. unfold bucket_id.
-    apply (buckets_in 3600 (zmin z) (zmax z) (v / 3600)); [lia|].
-    pose proof (Z.div_le_mono (zmin z) v 3600 ltac:(lia) ltac:(lia)).
-    pose proof (Z.div_le_mono v (zmax z) 3600 ltac:(lia) ltac:(lia)). lia.
+    subst t. unfold cal_zones_eq_gen, tsite_bucket_hour. apply in_nonempty_filter.
+    apply filter_In. split; [exact Hz|].
+    unfold has_bucket_gen. apply existsb_exists. exists (bucket_id 3600 vc). split; [|apply Z.eqb_refl].
+    unfold bucket_id, u32_mod, tsite_bucket_mod. apply Bk; [exact P3600|].
+    apply div_between; [exact P3600 | clear - Elo Evc0 Hb; lia | clear - Ehi Evc0 Hb; lia].
   - subst t. cbn [zti_ok]. apply existsb_exists. exists v. split; [exact Ht | apply Z.eqb_refl].
   - apply Ge. clear - Hc Hb. lia.
   - cbn [zti_ok]. clear - Hc Hb. lia.
@@ -352,6 +389,42 @@ Proof.
   - apply Le. clear - Hc Hb. lia.
   - cbn [zti_ok]. clear - Hc Hb. lia.
 Qed.
+
+(** the current tree: literal and stamps of the zone in [0, 2^32) *)
+Theorem prune_sound_in_range : forall flag op v zones z t,
+  0 <= v < u32_mod ->
+  In z zones -> 0 <= zmin z -> zmax z < u32_mod ->
+  In t (z_ts z) -> cmp_holds op t v ->
+  exists ids, prune flag op (SInt v) zones = Some ids /\ In (z_id z) ids.
+Proof.
+  intros flag op v zones z t Hv Hz Hlo Hhi Ht Hc. unfold prune.
+  apply (prune_gen_sound _ _ _ _ flag op v zones z t); auto;
+    [unfold u32_mod, tsite_bucket_mod in *; clear - Hv; lia | intros _; clear - Hv; lia].
+Qed.
+
+(** the tree with fixes/C16-pre-epoch-time-values.diff applied ([guard] and [clamps] off):
+    any literal instant below 2^32, negative ones included, any zone whose stamps are
+    below 2^32, pre-epoch stamps included *)
+Theorem prune_sound_after_fix : forall fb dflt flag op v zones z t,
+  - 2 ^ 63 <= v < u32_mod ->
+  In z zones -> zmax z < u32_mod ->
+  In t (z_ts z) -> cmp_holds op t v ->
+  exists ids, prune_gen false false fb dflt flag op (SInt v) zones = Some ids /\ In (z_id z) ids.
+Proof.
+  intros fb dflt flag op v zones z t Hv Hz Hhi Ht Hc.
+  apply (prune_gen_sound false false fb dflt flag op v zones z t); auto; discriminate.
+Qed.
+
+(** ... on the witnesses of the known classes the repaired shapes give the right zones, and an
+    unparsable SINCE (value [i64::MIN]) restricts nothing *)
+Example after_fix_witnesses :
+  prune_gen false false false (- 2 ^ 63) false OEq (SInt 500) [mkZone 1 [0; 0]; mkZone 4 [-5; 500]] = Some [4%N]
+  /\ prune_gen false false false (- 2 ^ 63) false OGt (SInt (-1)) [mkZone 1 [0; 0]; mkZone 2 [10; 20]] = Some [1%N; 2%N]
+  /\ prune_gen false false false (- 2 ^ 63) false OEq (SInt (-50)) [mkZone 0 [-100; -50]; mkZone 1 [0; 0]] = Some [0%N]
+  /\ prune_gen false false false (- 2 ^ 63) false OGte
+       (SUtf8 [49;48;48;48;48;48;48;48;48;48;48;48;48;48;48;48;48;48;48;48]%N)
+       [mkZone 0 [-100; -50]; mkZone 1 [0; 0]; mkZone 2 [10; 20]] = Some [0%N; 1%N; 2%N].
+Proof. repeat split; vm_compute; reflexivity. Qed.
 
 (** ** ... and through the raw string literal (SINCE, or WHERE without planner rewriting) *)
 Corollary prune_sound_literal : forall flag op s v zones z t,
